@@ -97,6 +97,10 @@ func (p *Prog) helperImplies(i *ssa.If, pred guardPred) (bool, bool) {
 }
 
 func (p *Prog) guardedBy(in ssa.Instruction, pred guardPred) *ssa.If {
+	return p.guardedByOpt(in, pred, true)
+}
+
+func (p *Prog) guardedByOpt(in ssa.Instruction, pred guardPred, lift bool) *ssa.If {
 	b := in.Block()
 	fn := b.Parent()
 	for _, d := range fn.Blocks {
@@ -133,8 +137,38 @@ func (p *Prog) guardedBy(in ssa.Instruction, pred guardPred) *ssa.If {
 			return i
 		}
 	}
-	if mc := p.parent[fn]; mc != nil {
+	if mc := p.parent[fn]; mc != nil && lift {
 		return p.guardedBy(mc, pred)
+	}
+	return nil
+}
+
+// guardedByNow is guardedBy for facts that may change between the creation of
+// a closure and the time it runs (the disposing flag of a connection): the
+// guard must lie in the function that contains the instruction, or — for a
+// closure that is called on the spot — in the function that calls it. A guard
+// in front of the creation of a continuation says nothing about the moment the
+// continuation runs.
+func (p *Prog) guardedByNow(in ssa.Instruction, pred guardPred) *ssa.If {
+	fn := in.Block().Parent()
+	saved := p.parent[fn]
+	// look in fn only
+	g := p.guardedByOpt(in, pred, false)
+	if g != nil || saved == nil {
+		return g
+	}
+	// a closure called where it is created
+	onSpot := saved.Referrers() != nil && len(*saved.Referrers()) > 0
+	if saved.Referrers() != nil {
+		for _, r := range *saved.Referrers() {
+			cl, ok := r.(*ssa.Call)
+			if !ok || cl.Call.Value != ssa.Value(saved) {
+				onSpot = false
+			}
+		}
+	}
+	if onSpot {
+		return p.guardedByNow(saved, pred)
 	}
 	return nil
 }
@@ -792,6 +826,7 @@ func ruleGates(c *Ctx) {
 		}
 		c.inst(1)
 		var actionChecked []Ref
+		var actionKeys []string
 		sp := &Spec{}
 		sp.Classify = func(t *Tracer, fr *Frame, in ssa.Instruction) []Ev {
 			if cl, ok := isCallTo(in, getRPC); ok {
@@ -814,15 +849,25 @@ func ruleGates(c *Ctx) {
 			}
 			if cl, ok := isCallTo(in, canCallS); ok {
 				actionChecked = append(actionChecked, t.Resolve(fr, callArgs(cl.Common())[1]))
+				actionKeys = append(actionKeys, t.valKey(fr, callArgs(cl.Common())[1], t.cur))
 			}
 			if cl, ok := isCallTo(in, canCallA); ok {
 				actionChecked = append(actionChecked, t.Resolve(fr, callArgs(cl.Common())[1]))
+				actionKeys = append(actionKeys, t.valKey(fr, callArgs(cl.Common())[1], t.cur))
 			}
 			if cl, ok := isCallTo(in, cacheCall); ok {
 				act := t.Resolve(fr, callArgs(cl.Common())[4])
 				same := false
 				for _, a := range actionChecked {
 					if a.Key() == act.Key() {
+						same = true
+					}
+				}
+				// the action kept in a field of the request's parameter object: two loads of that field with no
+				// possible write in between are the same action
+				ak := t.valKey(fr, callArgs(cl.Common())[4], t.cur)
+				for _, k := range actionKeys {
+					if k == ak && strings.HasPrefix(ak, "fld(") {
 						same = true
 					}
 				}
